@@ -230,7 +230,26 @@ def _tol(ops):
 
 
 def run_case(case):
-    from ..gen import build as shared_build, c16_build, c16_catalogs, exprs
+    """one case; an exception that escapes a monitor is a refutation when it was raised inside the library
+    (innermost frame under .../biogeme/), a harness error otherwise"""
+    import traceback
+
+    rec = Rec(case)
+    try:
+        _run_case(case, rec)
+    except Exception as e:  # noqa
+        tb = traceback.extract_tb(e.__traceback__)
+        if tb and '/biogeme/' in tb[-1].filename.replace('\\', '/') and '/biomon/' not in tb[-1].filename:
+            rec.violation(f'C16/unclassified-{type(e).__name__}-raised-inside-library',
+                          f'{type(e).__name__}: {e} at {tb[-1].filename}:{tb[-1].lineno} ({tb[-1].name})',
+                          {'traceback': traceback.format_exc()[-2000:]})
+        else:
+            raise
+    return rec.out()
+
+
+def _run_case(case, rec):
+    from ..gen import build as shared_build, c16_build, exprs
     from ..oracle import c16_model as M, evalast
     from biogeme.configuration import Configuration, SelectionTuple
     from biogeme.controller import CentralController
@@ -238,7 +257,6 @@ def run_case(case):
     from biogeme.catalog import Catalog
     from biogeme.exceptions import BiogemeError
 
-    rec = Rec(case)
     tier = case.get('tier', 'quick')
     spec = make_spec(case)
     rng = random.Random(f"c16run/{case.get('seed')}/{case.get('i')}/{case.get('k')}/{case['mode']}")
